@@ -61,8 +61,15 @@ unsigned vp_cvwaits_[VP_MAXT];    /* condition-variable waits begun per thread *
 #define VP_NEW(p)
 #endif
 
+int vp_intent_[VP_MAXT];          /* harness announced that the acquisition in progress is a shared (reader) one */
+int vp_excl_intents;              /* exclusive acquisitions begun and not yet released (harness ghost) */
+static inline void vp_intent_shared(int32_t on) { vp_intent_[vp_cur] = on; }
+static inline void vp_intent_excl(int32_t d) { vp_excl_intents += d; }
 static inline void vp_blocked(int t, int kind, char* a, char* b) {
   vp_blk_kind[t] = kind; vp_blk_a[t] = a; vp_blk_b[t] = b; vp_blockcount_[t]++;
+  /* C02: with a shared-capable lock a reader is never blocked merely by other readers */
+  if ((kind == VP_B_WR || kind == VP_B_RD || kind == VP_B_MUTEX) && vp_intent_[t] && vp_excl_intents == 0)
+    VP_CHECK(0, "shared acquisition blocks although no writer holds or wants the lock (reader blocked merely by readers)");
 }
 static inline unsigned vp_blockcount(void) { return vp_blockcount_[vp_cur]; }
 static inline unsigned vp_cvwaits(void) { return vp_cvwaits_[vp_cur]; }
@@ -103,6 +110,7 @@ static inline void vp_win_enter(int32_t obj, int32_t excl) {
     if (vp_win_r[obj] > vp_win_maxr[obj]) vp_win_maxr[obj] = vp_win_r[obj];
   }
 }
+static inline int32_t vp_win_readers(int32_t obj) { return vp_win_r[obj]; }
 static inline void vp_win_exit(int32_t obj, int32_t excl) {
   if (excl) vp_win_w[obj]--; else vp_win_r[obj]--;
 }
@@ -288,5 +296,55 @@ static inline void vp_eptr_addref(char* p) { (void)p; }
 static inline void vp_eptr_release(char* p) { (void)p; }
 static inline void vp_uncaught(void) { VP_CHECK(0, "uncaught exception leaves a thread entry function"); }
 static inline void vp_throw_now(int32_t code);   /* defined by the generated file (needs the int typeinfo) */
+
+
+/* ------------------------------------------------------------------ linearizability of a single register (C15)
+ * history of <= VP_HN completed operations, stamps from a global counter; values from a small domain 0..VP_HV-1.
+ * R[mask] = set of register values possible after linearising exactly the operations in mask (subset DP). */
+#define VP_HN 6
+#define VP_HV 4
+enum { VP_OP_LOAD, VP_OP_STORE, VP_OP_XCHG, VP_OP_CAS };
+int vp_h_n; unsigned vp_h_clock;
+int vp_h_kind[VP_HN], vp_h_a1[VP_HN], vp_h_a2[VP_HN], vp_h_r1[VP_HN], vp_h_r2[VP_HN], vp_h_done[VP_HN];
+unsigned vp_h_inv[VP_HN], vp_h_resp[VP_HN];
+static inline int32_t vp_hist_begin(int32_t kind, int32_t a1, int32_t a2) {
+  int i = vp_h_n++;
+  VP_CHECK(i < VP_HN, "model bound: history length");
+  vp_h_kind[i] = kind; vp_h_a1[i] = a1; vp_h_a2[i] = a2; vp_h_inv[i] = ++vp_h_clock; vp_h_done[i] = 0;
+  return i;
+}
+static inline void vp_hist_end(int32_t i, int32_t r1, int32_t r2) { vp_h_r1[i] = r1; vp_h_r2[i] = r2; vp_h_resp[i] = ++vp_h_clock; vp_h_done[i] = 1; }
+/* LOAD: r1 = value read.  STORE: a1 = value.  XCHG: a1 = new value, r1 = returned old value.
+   CAS: a1 = expected, a2 = desired, r1 = success flag, r2 = value reported in 'expected' afterwards. */
+static inline void vp_lin_check(int32_t init) {
+  int n = vp_h_n;
+  unsigned char R[1 << VP_HN];
+  for (int m = 0; m < (1 << VP_HN); m++) R[m] = 0;
+  R[0] = (unsigned char)(1u << init);
+  for (int m = 0; m < (1 << VP_HN); m++) {
+    for (int i = 0; i < VP_HN; i++) {
+      if (i >= n || ((m >> i) & 1)) continue;
+      int ok = 1;   /* every operation that responded before i was invoked must already be in m */
+      for (int j = 0; j < VP_HN; j++)
+        if (j < n && j != i && !((m >> j) & 1) && vp_h_resp[j] < vp_h_inv[i]) ok = 0;
+      if (!ok) continue;
+      for (int v = 0; v < VP_HV; v++) {
+        if (!((R[m] >> v) & 1)) continue;
+        int nv = v, good = 0;
+        switch (vp_h_kind[i]) {
+          case VP_OP_LOAD: good = (vp_h_r1[i] == v); break;
+          case VP_OP_STORE: good = 1; nv = vp_h_a1[i]; break;
+          case VP_OP_XCHG: good = (vp_h_r1[i] == v); nv = vp_h_a1[i]; break;
+          case VP_OP_CAS:
+            if (v == vp_h_a1[i]) { good = (vp_h_r1[i] == 1); nv = vp_h_a2[i]; }
+            else good = (vp_h_r1[i] == 0 && vp_h_r2[i] == v);
+            break;
+        }
+        if (good && nv >= 0 && nv < VP_HV) R[m | (1 << i)] |= (unsigned char)(1u << nv);
+      }
+    }
+  }
+  VP_CHECK(n <= VP_HN && R[(1 << n) - 1] != 0, "history is not linearizable as a single atomic register");
+}
 
 #endif
